@@ -470,6 +470,29 @@ def insitu(spec, rec, mon, rng):
             continue
         rec.count("insitu_updates_checked", rec.counters["post:set_from_label_and_value_arrays"] - n0)
         rec.case(("insitu", desc["n_comp"], desc["irf"], i), True, sample=desc, features=["insitu"])
+    # "consequently the model is always evaluated with mutually consistent parameter values": harness schemes in which
+    # one dataset depends on the free parameters ONLY through expressions; every objective evaluation of a real
+    # optimisation is compared with the reference objective at the same optimiser vector (oracle of C02)
+    from vf.gen import schemes as S
+    from vf.props import c02
+
+    S.model_class()
+    log = []
+    c02.attach(rec, log)
+    for j in range(max(2, spec["n"] // 4)):
+        linked = [True, False, None][j % 3]
+        k1, k2 = float(np.round(rng.uniform(0.8, 2.0), 3)), float(np.round(rng.uniform(0.05, 0.4), 3))
+        ds = [{"label": f"ds{k + 1}", "group": "g1", "t": [0.0, 0.25, 0.5, 1.0, 1.5, 2.5, 4.0, 6.0, 8.0, 11.0][: 9 + k], "g": [1.0, 2.0, 3.0, 4.0] if k == 0 else [3.0, 4.0, 5.0],
+               "layout": "mg", "megacomplex": ["m1"] if k == 0 else ["m2"], "dseed": int(rng.integers(2**31)), "id0": 100 * k, "weight": None, "scale": None, "mc_scale": None} for k in range(2)]
+        case = S.jsonable_case({
+            "datasets": ds, "megacomplexes": {"m1": {"labels": ["a", "b"], "rates": ["k.1", "k.2"], "disp": None}, "m2": {"labels": ["a", "c"], "rates": ["e.1", "e.2"], "disp": None}},
+            "global_megacomplexes": {}, "groups": {"g1": {"link_clp": linked, "residual_function": "variable_projection"}},
+            "parameters": {"k.1": {"value": k1}, "k.2": {"value": k2}, "e.2": {"value": k2 / 3, "expr": "$k.2 / 3"}, "e.1": {"value": 2 * k1, "expr": "2 * $k.1"}},
+            "link_tolerance": 0.0, "link_method": "nearest", "constraints": [], "relations": [], "penalties": [], "weights": [],
+            "features": {"nnls": False, "link_clp": linked, "n_datasets": 2, "expression_only_dataset": True}})
+        ok = c02.judge_case(case, rec, log)
+        rec.count("insitu_objectives_with_expression_only_dataset")
+        rec.case(("insitu-objective", str(linked), j), bool(ok), features=["insitu-objective"])
 
 
 def replay(case, rec):
